@@ -305,6 +305,15 @@ func (rl *Shell) yankNthArg() {
 		return
 	}
 
+	// A negative argument counts from the end of the line.
+	if argNth < 0 {
+		argNth = len(words) + argNth + 1
+	}
+
+	if argNth < 1 {
+		return
+	}
+
 	lastArg = words[argNth-1]
 
 	// Quote if required.
